@@ -41,6 +41,7 @@ type Dev struct {
 	AdvertiseExtra string // server: extra method names appended to the advertised AuthMethodsList
 	SelectBit      int    // server: 0 honest; otherwise the method bit(s) returned to the client
 	SelectZero     bool   // server: answer 0 to the client's bitmask
+	SelectSeq      []int  // server: the i-th answer to a client bitmask (overrides the above while it lasts; 0 = answer zero)
 	ReturnCode     string // server post-auth ReturnCode ("" = AUTHORIZED)
 	NegReturnCode  string // server negotiation-response ReturnCode ("" = none)
 	PostAuthClear  bool   // server: send the post-auth ad unencrypted
@@ -251,7 +252,7 @@ func Server(ctx context.Context, st *stream.Stream, o ServerOpts) (rec *Record) 
 	}
 	// authentication phase: the puppet follows the client, which decides from the answer it got
 	if authAns == "YES" {
-		for {
+		for round := 0; ; round++ {
 			bm := message.NewMessageFromStream(st)
 			mask, err := bm.GetInt(ctx)
 			if err != nil {
@@ -277,6 +278,9 @@ func Server(ctx context.Context, st *stream.Stream, o ServerOpts) (rec *Record) 
 			if o.Dev.SelectZero {
 				sel = 0
 			}
+			if round < len(o.Dev.SelectSeq) {
+				sel = o.Dev.SelectSeq[round]
+			}
 			rm := message.NewMessageForStream(st)
 			_ = rm.PutInt(ctx, sel)
 			if err := rm.FinishMessage(ctx); err != nil {
@@ -285,7 +289,8 @@ func Server(ctx context.Context, st *stream.Stream, o ServerOpts) (rec *Record) 
 			}
 			rec.AuthSelected = sel
 			rec.step("selected %#x", sel)
-			if sel == 0 {
+			if sel == 0 || sel&(sel-1) != 0 {
+				// zero, or several bits at once (not a selection): the client decides what it offers next
 				continue
 			}
 			if sel != BitClaimToBe && o.OnMethod != nil {
